@@ -119,7 +119,7 @@ func C15(r *ev.Run) {
 		return
 	}
 	Parallel(len(specs), func(i int) { each(specs[i]) })
-	r.Floor("proposals-checked", 10000)
+	r.Floor("proposals-checked", 5000)
 	r.Floor("proposals-clock-ahead", 2000)
 	r.Floor("proposals-clock-behind", 500)
 	r.Floor("proposals-clock-in-gap", 50)
@@ -128,5 +128,5 @@ func C15(r *ev.Run) {
 	r.Floor("primary-blocks-checked", 5000)
 	r.Floor("primary-headers-checked", 5000)
 	r.Floor("primary-preheaders-checked", 1000)
-	r.Floor("proposals-after-backup-role-in-same-height", 100)
+	r.Floor("proposals-after-backup-role-in-same-height", 50)
 }
